@@ -7,6 +7,8 @@ whose outcome is already determined), the ordered list of persistent effects (st
 references, calls with their argument terms) and the outcome.  No solver, no execution of compiled
 code; the walk is bounded by MAX_PATHS (fail closed).
 """
+import re
+
 from mir import Place, callee_name, callee_id
 from terms import (ISet, Facts, is_const, const_val, fold_bin, ty_range, ty_bits, wrap, key_of, tstr, pstr,
                    CMP_NEG)
@@ -134,11 +136,40 @@ def affects(pt, ev_pt, locs):
     return any(x in whole for x in named[1:])
 
 
+_KNOWN_FNS = None
+
+
+def known_fns():
+    """names of the functions of the reference tree (mzsa/tables/known_fns.json); a crate-local callee outside this set is a
+    helper introduced later and is evaluated transparently (see mkknown.py)"""
+    global _KNOWN_FNS
+    if _KNOWN_FNS is None:
+        import json
+        import os
+        p = os.path.join(os.path.dirname(os.path.dirname(os.path.abspath(__file__))), "tables", "known_fns.json")
+        _KNOWN_FNS = frozenset(json.load(open(p))) if os.path.exists(p) else frozenset()
+    return _KNOWN_FNS
+
+
+def is_new_helper(cf):
+    """a loop-free function item that the reference tree does not have"""
+    if cf is None or cf.kind in ("closure", "promoted") or not known_fns() or cf.name in known_fns():
+        return False
+    if "{closure" in cf.name or "{promoted" in cf.name:
+        return False
+    return not any(cf.dominates(b, p) for b in range(len(cf.blocks)) for p in cf.preds(b))
+
+
 class Evaluator:
     def __init__(self, crate, inline=(), inline_depth=3, stop_blocks=(), ptr=64, pure_calls=(),
                  max_paths=MAX_PATHS, record_trace=False, extra_crates=(), effects=None, max_blocks=None,
-                 summaries=(), sumcache=None, unroll=1):
+                 summaries=(), sumcache=None, unroll=1, concrete_ranges=False):
         self.unroll = unroll
+        # opt-in: `for _ in a..b` with constant bounds is executed concretely (the iterator value lives in the store), so that with a
+        # sufficient `unroll` the rows enumerate exactly the feasible iteration counts.  Off by default: rows that stand for "any
+        # iteration" need the payload symbolic in [a, b).
+        self.concrete_ranges = concrete_ranges
+        self.unroll_heads = None      # when set: only these blocks may be revisited `unroll` times, every other block once
         self.effects = effects
         self.max_blocks = max_blocks
         self.summaries = tuple(summaries)
@@ -764,7 +795,7 @@ class Evaluator:
                 st.visited.add(key)
             else:
                 n = sum(1 for k in st.visited if k[0] == frame and k[1] == bb)
-                if n >= self.unroll:
+                if n >= (self.unroll if (self.unroll_heads is None or bb in self.unroll_heads) else 1):
                     self._finish(st, ("backedge", bb))
                     return
                 if self.max_blocks is not None and len(st.visited) >= self.max_blocks:
@@ -792,9 +823,21 @@ class Evaluator:
             if "return" in t:
                 ret = self.read(st, ("local", frame, 0))
                 if len(st.frames) > 1:
-                    fnc, fr, dest, target = st.frames[-1]
+                    fnc, fr, dest, target = st.frames[-1][:4]
+                    post = st.frames[-1][4] if len(st.frames[-1]) > 4 else None
                     st.frames = st.frames[:-1]
                     cfn, cframe = st.frames[-1][0], st.frames[-1][1]
+                    if post is not None and post[0] == "assume":
+                        # a predicate closure evaluated for the element an adaptor handed out: only the paths on which it holds
+                        # continue, and the caller receives `post[1]` (e.g. Some(element))
+                        if is_const(ret):
+                            if const_val(ret) != 1:
+                                return
+                        else:
+                            if not st.facts.constrain(ret, ISet.of(1)):
+                                return
+                            st.atoms.append((ret, ISet.of(1)))
+                        ret = post[1]
                     self.write(st, dest, ret)
                     if root_of(dest)[0] != "local":
                         st.effects.append(("store", dest, ret, ""))
@@ -948,6 +991,52 @@ class Evaluator:
                         value = ("agg", "core::option::Option", "None", (), ())
                     conts += finish_value(s2, value)
                 return conts
+        # ---- constant ranges executed concretely (opt-in)
+        if self.concrete_ranges and args:
+            if callee.endswith("::into_iter") and args[0][0] == "agg" and args[0][1].endswith("::Range"):
+                return finish_value(st, args[0])
+            if callee.endswith("::next") and "ops::Range<" in callee and args[0][0] == "ref":
+                pl_ = args[0][1]
+                for _ in range(4):
+                    v_ = self.read(st, pl_)
+                    if isinstance(v_, tuple) and v_ and v_[0] == "ref":
+                        pl_ = v_[1]
+                    else:
+                        break
+                if isinstance(v_, tuple) and v_ and v_[0] == "agg" and v_[1].endswith("::Range") and len(v_[4]) == 2 and \
+                        is_const(v_[4][0]) and is_const(v_[4][1]):
+                    a_, b_ = const_val(v_[4][0]), const_val(v_[4][1])
+                    if a_ < b_:
+                        self.write(st, pl_, v_[:4] + ((("int", a_ + 1), v_[4][1]),))
+                        return finish_value(st, ("agg", "core::option::Option", "Some", ("0",), (("int", a_),)))
+                    return finish_value(st, ("agg", "core::option::Option", "None", (), ()))
+        # ---- `iter.find(pred)`: None, or Some(x) for an element x on which the predicate holds
+        if callee.endswith("Iterator>::find") or callee.endswith("Iterator::find"):
+            clo = args[1] if len(args) > 1 else None
+            if clo is not None and clo[0] == "ref":
+                clo = self.read(st, clo[1])
+            pcf = self.lookup_fn(clo[1]) if (clo is not None and clo[0] == "closure") else None
+            if pcf is not None and len(st.frames) <= self.inline_depth + 4:
+                st.seq += 1
+                seq = st.seq
+                st.effects.append(("call", callee, tuple(args), sp, seq, tuple(c.get("closures", [])), len(st.atoms)))
+                self._havoc_arg(st, args[0])
+                s_none = st.copy()
+                conts = finish_value(s_none, ("agg", "core::option::Option", "None", (), ()))
+                elem = ("field", ("field", ("call", callee, tuple(args), seq), "as Some"), "0")
+                dl = t["dest"]
+                m_ = re.search(r"Option<([a-z0-9]+)>", fn.locals[dl["l"]]["ty"]) if not dl["p"] else None
+                if m_ and not ty_range(m_.group(1)).is_all():
+                    st.facts.constrain(elem, ty_range(m_.group(1)))
+                if "ops::Range<" in callee or "Rev<" in callee or "StepBy<" in callee:
+                    rb = self._const_range_of(fn, args[0], direct=True)
+                    if rb is not None and rb[0] < rb[1]:
+                        st.facts.constrain(elem, ISet._norm([(rb[0], rb[1] - 1)]))
+                holder = ("local", self.frame_counter + 1, 100001)
+                st.store[holder] = elem
+                some = ("agg", "core::option::Option", "Some", ("0",), (elem,))
+                conts += self._enter(st, pcf, clo, [("ref", holder, False)], dest, target, callee, sp, post=("assume", some))
+                return conts
         # ---- closure invocation with a known closure value
         if callee.endswith(("FnOnce::call_once", "FnMut::call_mut", "Fn::call")) and args:
             clo = args[0]
@@ -960,7 +1049,22 @@ class Evaluator:
                     return self._enter(st, cf, clo, list(targs), dest, target, callee, sp)
         # ---- inlined callees
         cf = self.lookup_fn(cid) if cid else None
-        if cf is not None and len(st.frames) <= self.inline_depth and any(_sfx(callee, s) or s == "*" for s in self.inline):
+        if cf is None and args and self.inline and not callee.startswith("<") and "::" in callee:
+            # trait method called through a type parameter: dispatch on the receiver's known aggregate type
+            recv = args[0]
+            if recv[0] == "ref":
+                recv = self.read(st, recv[1])
+            if recv is not None and recv[0] == "agg":
+                tr, meth = callee.rsplit("::", 1)
+                ty = recv[1].split("::", 1)[1] if "::" in recv[1] else recv[1]
+                want = "<%s as %s>::%s" % (ty, tr, meth)
+                for cr in self.crates:
+                    hit = [f for f in cr.fns.values() if f.name == want]
+                    if len(hit) == 1:
+                        cf, callee = hit[0], want
+                        break
+        if cf is not None and ((len(st.frames) <= self.inline_depth and any(_sfx(callee, s) or s == "*" for s in self.inline)) or
+                               (len(st.frames) <= self.inline_depth + 2 and is_new_helper(cf))):
             self.frame_counter += 1
             nf = self.frame_counter
             for i, a in enumerate(args):
@@ -1005,7 +1109,7 @@ class Evaluator:
             tr = ty_range(dty)
             if not tr.is_all():
                 st.facts.constrain(res, tr)
-        if callee.endswith("::next") and "ops::Range<" in callee and t.get("args"):
+        if callee.endswith("::next") and ("ops::Range<" in callee or "StepBy<" in callee) and t.get("args"):
             # `for i in a..b` with constant bounds: the value handed out by Range::next lies in [a, b)
             rb = self._const_range_of(fn, t["args"][0])
             if rb is not None and rb[0] < rb[1]:
@@ -1013,7 +1117,7 @@ class Evaluator:
                 st.facts.constrain(payload, ISet.of(*range(rb[0], rb[1])) if rb[1] - rb[0] <= 64 else ISet._norm([(rb[0], rb[1] - 1)]))
         return finish_value(st, res)
 
-    def _const_range_of(self, fn, operand):
+    def _const_range_of(self, fn, operand, direct=False):
         """(a, b) if `operand` is `&mut R` (possibly reborrowed / moved) where local R is initialised once by
         `into_iter(Range { start: const a, end: const b })` — looked up in the MIR definitions; Range::next changes only `start`,
         so the bounds hold on every iteration"""
@@ -1054,22 +1158,21 @@ class Evaluator:
                     return None
             else:
                 break
-        # 2. the iterator local: = into_iter(x) (through moves)
-        for _ in range(6):
-            k, v = rvalue_of(l)
+        # 2. the iterator local: = into_iter(x) / x.rev() / x.step_by(n) (through moves): all hand out a subset of x's items
+        for _ in range(8):
+            k, v = rvalue_of(l) if l is not None else (None, None)
             if k == "call":
-                if not callee_name(v["call"]).endswith("into_iter") or not v.get("args"):
+                nm = callee_name(v["call"])
+                if not (nm.endswith("into_iter") or nm.endswith("Iterator::rev") or nm.endswith("::step_by")) or not v.get("args"):
                     return None
                 l = plain_local(v["args"][0])
-                break
+                continue
             if k == "rv" and "use" in v:
                 l = plain_local(v["use"])
                 if l is None:
                     return None
-            else:
-                return None
-        else:
-            return None
+                continue
+            break
         # 3. the range aggregate
         for _ in range(6):
             if l is None:
@@ -1102,6 +1205,13 @@ class Evaluator:
                                 return int(m.group(1))
                     return None
                 a, b = cval(ops[0]), cval(ops[1])
+                if a is None and b is not None:
+                    # a start that is not a constant: at least the element type's minimum
+                    import re as _re
+                    m = _re.search(r"Range<([a-z0-9]+)>", fn.locals[l]["ty"])
+                    tr = ty_range(m.group(1)) if m else None
+                    if tr is not None and not tr.is_all() and tr.lo() is not None:
+                        a = tr.lo()
                 return (a, b) if a is not None and b is not None else None
             return None
         return None
@@ -1121,7 +1231,7 @@ class Evaluator:
             else:
                 self._havoc_arg(st, a)
 
-    def _enter(self, st, cf, clo, targs, dest, target, callee, sp):
+    def _enter(self, st, cf, clo, targs, dest, target, callee, sp, post=None):
         """inline closure body `cf` with environment `clo` and explicit arguments `targs`"""
         self.frame_counter += 1
         nf = self.frame_counter
@@ -1134,7 +1244,7 @@ class Evaluator:
             st.store[("local", nf, 1)] = clo
         for i, a in enumerate(targs):
             st.store[("local", nf, i + 2)] = a
-        st.frames.append((cf, nf, dest, target))
+        st.frames.append((cf, nf, dest, target) if post is None else (cf, nf, dest, target, post))
         st.effects.append(("enter", cf.name, tuple(targs), sp))
         return [(st, cf, nf, 0)]
 
